@@ -312,8 +312,31 @@ func genC01(rng *Rng, thorough bool, emit func(*Scenario)) {
 			emit(getScenario("c01-short", kind, be.addr, [][][]byte{one(simFrame(7, p))}))
 		}
 	}
+	// "the value returned is exactly the decoding of that frame's payload": every accessor on payloads of every
+	// width, with the sign bit set, NUL-padded, long (a 100-byte text is a 209-character frame)
+	long44 := append([]byte("SmartSolar Charger MPPT VE.Can 250/100 rev2"), 0)
+	long100 := append(rng.Bytes(97), 0, 0, 0)
+	for k := range long100[:97] {
+		long100[k] = 'a' + long100[k]%26
+	}
+	for pi, pl := range [][]byte{{0x80}, {0xFF}, {0x9C}, {0x7F}, {0x00, 0x80}, {0xFF, 0xFF}, {0x00, 0x00, 0x00, 0x80}, {0xFF, 0xFF, 0xFF, 0xFF},
+		{0, 0, 0, 0, 0, 0, 0, 0x80}, {0xFF, 0xFF, 0xFF, 0xFF, 0xFF, 0xFF, 0xFF, 0xFF}, {1, 2, 3}, {1, 2, 3, 4, 5, 6, 7, 8, 9}, rng.Bytes(12), rng.Bytes(32), long44, long100} {
+		a := []uint16{0xEDF0, 0x0000, 0x010A, 0xFFFF}[pi%4]
+		for _, kind := range getKinds {
+			emit(getScenario("c01-decode", kind, a, [][][]byte{one(simGet(a, 0, pl))}))
+			emit(getScenario("c01-decode", kind, a, [][][]byte{{[]byte("\r\nV\t12800\r\n"), simGet(a+1, 0, pl)}, one(simGet(a, 0, pl))}))
+		}
+	}
 	// device id: Done frames and their corruptions
 	ids := []uint16{0xA053, 0x0203, 0x0000, 0xFFFF, uint16(rng.U64())}
+	// a faulty stream repeated for every exchange of a call (a call that retries must still not invent a value)
+	for _, bad := range [][]byte{[]byte(":153A062\n"), []byte(":153A06\n"), []byte(":153A0"), simFrame(7, []byte{0x53, 0xA0}), simFrame(5, []byte{0x53, 0xA0}), []byte("\r\nV\t12800\r\n"), nil} {
+		var replies [][][]byte
+		for i := 0; i < 12; i++ {
+			replies = append(replies, one(bad))
+		}
+		emit(&Scenario{Tag: "devid-persistent-fault", Replies: replies, Calls: []Call{{Kind: "devid", Want: "err:other"}, {Kind: "devid", Want: "err:other"}}, NoAccept: true})
+	}
 	for _, id := range ids {
 		good := simFrame(1, []byte{byte(id), byte(id >> 8)})
 		emit(&Scenario{Tag: "devid-good", Replies: [][][]byte{one(good)}, Calls: []Call{{Kind: "devid", Want: "ok:" + strconv.Itoa(int(id))}}})
@@ -389,6 +412,39 @@ func genC02(rng *Rng, thorough bool, emit func(*Scenario)) {
 			}
 			emit(&Scenario{Tag: fmt.Sprintf("i%d", 8*w), Replies: [][][]byte{one(simGet(a, 0, p))}, Calls: []Call{{Kind: "int", Addr: a, Want: "ok:" + strconv.FormatInt(iv, 10)}}})
 		}
+	}
+	// one driver instance, several reads: each read returns what the device holds *now* (no value remembered)
+	for i := 0; i < 40; i++ {
+		var replies [][][]byte
+		var calls []Call
+		a := addrs[i%len(addrs)]
+		for k := 0; k < 2+rng.Intn(4); k++ {
+			switch rng.Intn(4) {
+			case 0:
+				id := uint16(rng.U64())
+				if k%2 == 1 {
+					id = []uint16{0xA056, 0xA389, 0x0000, 0xFFFF, 0x0203}[rng.Intn(5)]
+				}
+				replies = append(replies, one(simFrame(1, []byte{byte(id), byte(id >> 8)})))
+				calls = append(calls, Call{Kind: "devid", Want: "ok:" + strconv.Itoa(int(id))})
+			case 1:
+				v := rng.U64() >> uint(rng.Intn(64))
+				replies = append(replies, one(simGet(a, 0, leBytes(4, v))))
+				calls = append(calls, Call{Kind: "uint", Addr: a, Want: "ok:" + strconv.FormatUint(v&0xFFFFFFFF, 10)})
+			case 2:
+				v := rng.U64()
+				replies = append(replies, one(simGet(a, 0, leBytes(2, v))))
+				calls = append(calls, Call{Kind: "int", Addr: a, Want: "ok:" + strconv.Itoa(int(int16(v)))})
+			default:
+				t := rng.Bytes(1 + rng.Intn(20))
+				for j := range t {
+					t[j] = 'A' + t[j]%26
+				}
+				replies = append(replies, one(simGet(a, 0, append(t, 0, 0))))
+				calls = append(calls, Call{Kind: "str", Addr: a, Want: "ok:" + HEX(t)})
+			}
+		}
+		emit(&Scenario{Tag: "history-fresh-values", Replies: replies, Calls: calls, MaxWritesPerCall: 1})
 	}
 	// widths the signed accessor cannot interpret; the unsigned one reads the first eight bytes
 	for _, w := range []int{0, 3, 5, 6, 7, 9, 10, 12, 16, 33} {
